@@ -33,6 +33,25 @@ PROPS["C18"] = {
     "assumptions": ["SHA-256 collision resistance for the 'differs' clause"],
 }
 
+DEC_NOTE = NOTE_COMMON + ("base64, JSON parsing, Ed25519 verification and key-role tests are Section variables (theorems hold for all of them); "
+    "in the correspondence run they are instantiated per token by facts the harness computes with the standard library, its own nkey decoder and crypto/ed25519. "
+    "That no second valid signature exists without the key is EUF-CMA of Ed25519 (assumed). ")
+PROPS["C01"] = {
+    "level_text": "Theorems (Properties/C01.v, for every token string and all base64/JSON/Ed25519 functions): the Go slice expression is header-dot-payload; Decode, each typed decoder and DecodeGeneric accept only if the third segment verifies, under the issuer the returned claims report (= the payload's), over exactly the text of the layout the token declares (typed kinds: payload version; generic: header algorithm); a signature not valid for the declared layout is refused whatever else it verifies; decoded content is a function of the payload segment. Tie: valid tokens of all kinds from both encoders, single-character edits of every segment, splices, foreign-key and wrong-layout signatures, random strings, through all 8 decoders, compared with the model in Coq and with independently computed Ed25519 verdicts.",
+    "level_note": DEC_NOTE,
+    "assumptions": ["EUF-CMA of Ed25519 turns 'carries a valid signature' into 'alterations are rejected'"],
+}
+PROPS["C02"] = {
+    "level_text": "Theorems (Properties/C02.v): the ExpectedPrefixes tables read from the code on every run equal the statement's role matrix (finite check on the generated table); accepted => issuer role allowed for the kind returned; typed decoders return only their own kind; the kind returned is the kind declared; Encode's gate succeeds only for an allowed signer role and fitting subject role and refuses otherwise. Tie: the complete matrix kind x issuer role x subject role x layout x placement of forged, correctly signed tokens through all decoders, and the Encode matrix, evaluated by the model in Coq.",
+    "level_note": DEC_NOTE,
+    "assumptions": [],
+}
+PROPS["C05"] = {
+    "level_text": "Theorems (Properties/C05.v): Header.Valid holds iff type upper-cases to JWT and the algorithm lower-cases to one of the two names (so 'none', empty, prefixes and extensions are refused); accepted => exactly three segments each base64-decodable, valid header, declared version <= 2 (library version read from the code), operator/account/user/activation only versions 1 and 2, never cluster/server; same segment/header gate for DecodeGeneric. Tie: the full grid header type x algorithm x version x kind x placement x layout (20k correctly signed tokens) plus segment/padding variants and the envelope of real Encode output. The Encode-envelope half is checked on real tokens; its theorem (base64url model) is in Properties/C05_encode.v when present.",
+    "level_note": DEC_NOTE,
+    "assumptions": ["ASCII case mapping (non-ASCII header strings are outside the model)"],
+}
+
 NOT_APPLICABLE = {}
 
 # finding id -> predicate on a violation record (dict with 'what' and 'input')
